@@ -11,14 +11,17 @@ class FakeTime:
     sums of non-negative symbolic increments); after the last one the path is cut.
     """
 
-    def __init__(self, readings):
+    def __init__(self, readings, on_read=None):
         self.readings = list(readings)
         self.n = 0
+        self.on_read = on_read
 
     def monotonic(self):
         if self.n >= len(self.readings):
             raise BoundReached("clock readings used up")
         v = self.readings[self.n]
+        if self.on_read:
+            self.on_read(self.n)
         self.n += 1
         return v
 
@@ -27,10 +30,10 @@ class FakeTime:
 
 
 @contextmanager
-def fake_clock(readings):
+def fake_clock(readings, on_read=None):
     import microjs.vm as _vm
     import microjs.context as _ctx
-    clock = FakeTime(readings)
+    clock = FakeTime(readings, on_read)
     saved = (_vm.time, _ctx.time)
     _vm.time = clock
     _ctx.time = clock
